@@ -6,7 +6,7 @@ From Coq Require Import ZArith QArith Qcanon List Bool.
 From DV Require Import Base.Field Base.LinAlg Base.QcInst Model.Enums Model.Homog Model.Rotation
   Gen.Euler Gen.Quat Gen.LinInv Gen.TState Model.TransformState Model.TransformStateRun Model.TransformStateEx Model.TransformCfg
   Model.VelocityAffine Base.FieldFacts
-  Proofs.C07Linear Proofs.C07Sequential Proofs.C07Shared Proofs.C07Velocity Proofs.C07Refuted Proofs.C09Skeleton.
+  Proofs.C07Linear Proofs.C07Sequential Proofs.C07Shared Proofs.C07Velocity Proofs.C07Reparam Proofs.C07Refuted Proofs.C09Skeleton.
 Import ListNotations.
 Local Open Scope fld_scope.
 
@@ -142,20 +142,44 @@ Theorem C07_affine_generator_second_order :
 Proof. exact round_trip_second_order. Qed.
 Print Assumptions C07_affine_generator_second_order.
 
-(* 9. Full statement "for link in {False, True} and every parameter kind" is FALSE of the code:
-      inverse(link=True) (hence .inv) raises TypeError whenever the parameters are an nn.Parameter *)
-Theorem C07_inverse_link_parameter_refuted :
-  raises_type_error [New PV nat CV KLin 0%nat (PkBool PV true)] (Inverse PV nat CV 0%nat true true) = true /\
-  raises_type_error [New PV nat CV KSvf 0%nat (PkTen PV (qv 1 2, 0%nat) true)] (Inverse PV nat CV 0%nat true false) = true.
-Proof. exact inverse_link_parameter_raises. Qed.
-Print Assumptions C07_inverse_link_parameter_refuted.
+(* 9. inverse(link=True) / .inv on a transform that holds an nn.Parameter (repaired by 34360e2: link_
+      gives the copy a private _parameters dict without `params`): it succeeds, the original keeps its
+      Parameter, and the inverse reads that very cell -- so it follows every later in-place edit /
+      optimiser step (8b applies: its hypothesis VTen r ip covers ip = true). *)
+Theorem C07_inverse_link_parameter :
+  forall (P G C : Type) (p0 : P) (fillP : P -> P -> P) (callP : nat -> option C -> P)
+         (s : state P G C) o upd ob r,
+  get_obj P G C s o = Some ob -> invertible (o_kind P G C ob) = true ->
+  get_params P G C s ob = Some (VTen r true) -> get_pd P G C s (o_pd P G C ob) = Some (Some r) ->
+  exists n s1,
+    inverse1 P G C p0 gen_cfg s o true upd = Ok n s1 /\
+    get_obj P G C s1 o = Some ob /\ get_params P G C s1 ob = Some (VTen r true) /\
+    forall es : list (nat * P),
+      exists p g sg, held P G C p0 callP (edits p0 fillP s1 es) o = Some (p, g, sg) /\
+                     held P G C p0 callP (edits p0 fillP s1 es) n = Some (p, g, negb sg).
+Proof. exact (fun P G C p0 fillP callP => inverse_link_parameter p0 fillP callP gen_cfg gen_cfg_all). Qed.
+Print Assumptions C07_inverse_link_parameter.
+
+(* 9b. ... including the re-parameterised classes (EulerRotation, Isotropic/AnisotropicScaling, Shearing):
+       has_parameters(), which switches the tanh / exp re-parameterisation of angles() / scales(), is traced
+       from the source for every class and every way `params` can be held -- a linked transform answers what
+       the transform it is linked to answers (repaired by 338287c), and only an nn.Parameter is
+       re-parameterised.  Hence forward and linked inverse feed the SAME (c_i, s_i) / scales / tan into the
+       tensor() forms of theorems 2-4, which invert each other. *)
+Theorem C07_linked_inverse_same_reparameterisation : link_follows_reparam = true.
+Proof. exact link_follows_reparam_ok. Qed.
+Print Assumptions C07_linked_inverse_same_reparameterisation.
 
 (* non-vacuity: a proper rotation / invertible matrices satisfy the hypotheses; linked and unlinked
    inverses follow an in-place update on the executable instance *)
 Example C07_nonvacuous :
   qeqb (Qcplus (Qcmult (q 3 5) (q 3 5)) (Qcmult (q 4 5) (q 4 5))) (q 1 1) = true /\
-  call_gives h_link 1%nat (qv (-3) 5) = true /\ call_gives h_nolink 1%nat (qv (-3) 5) = true.
+  call_gives h_link 1%nat (qv (-3) 5) = true /\ call_gives h_nolink 1%nat (qv (-3) 5) = true /\
+  (call_gives h_link_param 1%nat (qv (-3) 5) = true /\ keeps_parameter h_link_param 0%nat = true /\
+   call_gives h_link_param_svf 1%nat (qv (-3) 5) = true).
 Proof.
   split; [vm_compute; reflexivity|].
-  split; [exact (proj1 (proj2 inverse_follows_updates)) | exact (proj2 (proj2 (proj2 inverse_follows_updates)))].
+  split; [exact (proj1 (proj2 inverse_follows_updates))|].
+  split; [exact (proj2 (proj2 (proj2 inverse_follows_updates)))|].
+  destruct inverse_link_parameter_follows as (_ & A & B & _ & D & _). exact (conj A (conj B D)).
 Qed.
